@@ -29,6 +29,20 @@ FAMILIES = {
     "mixed": lambda n: "".join(["(", "[", "f(", "- ", "{1:"][i % 5] for i in range(n)) + "1" + "".join([")", "]", ")", "", "}"][i % 5] for i in reversed(range(n))),
 }
 RUNGS = [10, 100, 1000, 3000, 10000, 100000]
+EVAL_FAMILIES = {
+    "and-true": lambda n: " && ".join(["1 < 2"] * n),
+    "or-false": lambda n: " || ".join(["2 < 1"] * n),
+    "and-or-vars": lambda n: " ".join(["t"] + [("&& t" if i % 3 else "|| f") for i in range(n)]),
+    "and-right": lambda n: "t && (" * n + "t" + ")" * n,
+    "tern-true": lambda n: "t ? (" * n + "1" + ") : 0" * n,
+    "tern-chain": lambda n: "f ? 0 : " * n + "1",
+    "nested-min": lambda n: "min(" * n + "1" + ", 2)" * n,
+    "in-lists": lambda n: " && ".join(["%d in [%s]" % (i, ", ".join(str(j) for j in range(i + 1))) for i in range(n)]),
+    "assign-chain": lambda n: "a = 1; " + "a = a + a - a; " * n + "a",
+    "list-of-lists": lambda n: "[" + ", ".join(["[" + ", ".join(["a"] * 8) + "]"] * n) + "] == [" + ", ".join(["[" + ", ".join(["1"] * 8) + "]"] * n) + "]",
+    "and-list": lambda n: "AND [" + ", ".join(["OR [f, t]"] * n) + "]",
+    "not-in": lambda n: " && ".join(["3 not in [1, 2]"] * n),
+}
 
 
 def bucket(depth):
@@ -249,6 +263,27 @@ def run_shard(desc):
             else:
                 part["inconclusive"].append("ladder %s/%d: %s %s" % (fam, depth, kind_, detail))
                 break
+    elif kind == "evalcost":
+        # programs of modest size whose evaluation (not their nesting depth) could blow up: chains that a careless short-circuit,
+        # re-evaluation or copy would make exponential or quadratic. One process per (family, size), 60 s CPU budget each.
+        fam, n_ = arg
+        s = EVAL_FAMILIES[fam](n_)
+        steps = [{"op": "parse", "text": s, "want": "ed", "cpu_budget_s": 60}, {"op": "exec", "text": s, "cpu_budget_s": 60}, {"op": "ctx", "id": 1, "vars": {"a": ["n", "1", 0], "t": ["b", True], "f": ["b", False]}}, {"op": "exec", "ctx": 1, "text": s, "cpu_budget_s": 60}]
+        run = common.run_vexec(steps, wd, "evalcost-%s-%d-%s" % (fam, n_, profile), profile, stack_mb=8, timeout=900)
+        kind_, detail = common.crash_verdict(run, "evalcost")
+        part["evaluations"] += 1
+        C["evalcost_programs"] = 1
+        if kind_ is None and run.ended:
+            st = run.steps()
+            pan = [x for x in st if "ppanic" in x or "expr_panic" in x or "desc_panic" in x or (isinstance(x.get("res"), dict) and "panic" in x["res"])]
+            if pan:
+                part["violations"].append({"sig": ["panic", "evalcost", fam], "what": "evaluating %d-fold `%s` panicked: %s" % (n_, EVAL_FAMILIES[fam](2), json.dumps(pan[0])[:300]), "replay": None})
+            else:
+                part["classes"].add("evalcost:%s:%d" % (fam, n_))
+        elif kind_ in ("hang", "deadlock", "signal"):
+            part["violations"].append({"sig": [kind_, "evalcost", fam], "what": "a %d-byte program, %d-fold `%s`: %s" % (len(s), n_, EVAL_FAMILIES[fam](2), detail), "replay": {"steps": steps}})
+        else:
+            part["inconclusive"].append("evalcost %s/%d: %s %s" % (fam, n_, kind_, detail))
     elif kind == "length":
         name, s = arg
         steps = [{"op": "parse", "text": s, "cpu_budget_s": 1200}, {"op": "exec", "text": s}, {"op": "tokenize", "text": s[:200000]}]
@@ -309,6 +344,9 @@ def run(rep, tier):
     rungs = [10, 100, 1000, 3000, 40000] if tier == "quick" else [10, 100, 1000, 3000, 10000, 20000, 40000, 100000, 1000000]
     for fam in FAMILIES:
         shards.append(("ladder", 0, 0, (fam, rungs), "verifdbg"))
+    for fam in EVAL_FAMILIES:
+        for n_ in ([16, 24, 32, 64, 200] if tier == "quick" else [16, 24, 28, 32, 48, 64, 128, 200, 400]):
+            shards.append(("evalcost", 0, 0, (fam, n_), "release" if n_ % 16 else "verifdbg"))
     for nm, s in length_inputs(tier):
         shards.append(("length", 0, 0, (nm, s), "release"))
     parts = common.pmap(run_shard, shards)
